@@ -26,6 +26,7 @@ ALLOWED_PURE = {
     "stdin", "stdout", "stderr", "environ", "_GLOBAL_OFFSET_TABLE_", "memset", "memmove", "strcmp", "strncmp",
     "memcmp", "strncpy", "strnlen", "strrchr", "__stack_chk_fail", "__assert_fail", "sigaddset", "sigdelset",
     "sigismember", "__tls_get_addr", "strerror", "__errno", "snprintf", "getenv", "strtol", "strtoul", "strtoll", "atoi", "atol",
+    "pthread_mutex_init", "pthread_mutex_destroy", "pthread_mutex_lock", "pthread_mutex_unlock", "pthread_mutex_trylock", "pthread_once", "pthread_self",
     "__ctype_b_loc", "qsort", "bsearch", "memchr", "strstr", "strcat", "strncat", "sprintf", "strcspn", "strspn", "strpbrk", "__isoc99_sscanf",
 }
 
